@@ -132,6 +132,8 @@ func catalogue2Values(name string) []*values.Value {
 		// nothing but common data: every element is at its defaults already
 		rec(2, map[int]*values.Value{5: dflt(1), 6: values.List(dflt(2), dflt(3)), 7: values.Map(values.Str("k"), dflt(4)), 8: values.Map(dflt(5), values.Int(9))}),
 	}
+	// a struct inside an unknown field (the minimal input of the compact-protocol finding)
+	vals = append(vals, rec(3, map[int]*values.Value{12: values.List(dflt(1))}))
 	// wide unknown containers
 	for _, size := range []int{63, 64, 65, 100} {
 		samples, path, marks, rows, bigm, xs := values.List(), values.List(), values.Set(), values.List(), values.Map(), values.List()
@@ -166,4 +168,41 @@ func catalogue2Values(name string) []*values.Value {
 	}
 	vals = append(vals, rec(140, map[int]*values.Value{14: rows}))
 	return vals
+}
+
+type hugeValue struct {
+	name  string
+	v     *values.Value
+	chain []int
+}
+
+// hugeValues: struct S with ONE unknown container of n elements (list<i64>, set<i32>, map<i32,string>), n around
+// and above 32767 (a 16-bit element counter). The set does not travel through the NEW code: its validate_set check
+// is quadratic.
+func hugeValues(sizes []int) []hugeValue {
+	var out []hugeValue
+	for _, n := range sizes {
+		samples, marks, bigm := values.List(), values.Set(), values.Map()
+		for i := 0; i < n; i++ {
+			samples.E = append(samples.E, values.Int(int64(i)))
+			marks.E = append(marks.E, values.Int(int64(i)))
+			bigm.E = append(bigm.E, values.Int(int64(i)), values.Str("v"))
+		}
+		mk := func(idx int, v *values.Value) *values.Value {
+			r := values.Record()
+			for i := 0; i < 16; i++ {
+				r.E = append(r.E, values.Nil())
+			}
+			r.E[0] = values.Int(int64(n))
+			r.E[4] = values.Record(values.Int(0), values.Int(10), values.Int(3), values.Str("none"), values.List(values.Int(1), values.Int(2)), values.Nil())
+			r.E[5], r.E[6] = values.List(), values.Map()
+			r.E[idx-1] = v
+			return r
+		}
+		out = append(out,
+			hugeValue{fmt.Sprintf("list<i64> of %d", n), mk(11, samples), []int{roleOldKeep, roleNewPlain}},
+			hugeValue{fmt.Sprintf("set<i32> of %d", n), mk(13, marks), []int{roleOldKeep}},
+			hugeValue{fmt.Sprintf("map<i32,string> of %d", n), mk(15, bigm), []int{roleOldKeep, roleNewPlain}})
+	}
+	return out
 }
